@@ -6,6 +6,7 @@ import Driver.ResolveCmds
 import Driver.ServerCmds
 import Driver.HostsCmds
 import Driver.ConfigCmds
+import Driver.ZoneTextCmds
 import Resolved.Spec.RefDecode
 
 namespace Resolved.Driver
@@ -23,6 +24,9 @@ def be16? (buf : List UInt8) : Option Nat :=
 /-- C03 oracle: the implementation's verdict against the reference decoder + the ID rule. -/
 def oracleDecode (buf : List UInt8) (impl : String) : String :=
   let ref := Ref.message buf
+  if impl == "hang" then "fail:C03:decoder-does-not-terminate"
+  else if impl == "panic" then "fail:C03:decoder-panicked"
+  else
   if impl.startsWith "ok " then
     match ref with
     | none => "fail:C03:accepted-malformed"
@@ -156,6 +160,11 @@ def dispatch (fields : List String) : Result :=
   | ["ip.parse", hex, impl] => cmdIpParse hex impl
   | ["ip.show", v, impl] => cmdIpShow v impl
   | ["config.load", es, orders, qs, impl] => cmdConfigLoad es orders qs impl
+  | ["ztext.parse", hex, impl] => cmdZtextParse hex impl
+  | ["ztext.roundtrip", hex, impl] => cmdZtextRoundtrip hex impl
+  | ["ztext.api", z, impl] => cmdZtextApi z impl
+  | ["ztext.serialise", z, impl] => cmdZtextSerialise z impl
+  | ["ztext.rendered", ds, v, hex, impl] => cmdZtextRendered ds v hex impl
   | cmd :: _ => bad ("unknown " ++ cmd)
   | [] => bad "empty"
 
